@@ -257,4 +257,262 @@ theorem drops_nil_of_noDrop (log : List (Obs ε)) (c q : Nat) (h : NoDrop log) :
       | _ => rfl
     rw [this]; exact ih hl
 
+theorem next_sound (net : Net σ ε) (s s' : St σ ε) (l : Label) (h : (l, s') ∈ next net s) : Step net s l s' := by
+  simp only [next, List.mem_filterMap] at h
+  obtain ⟨l', _, hl⟩ := h
+  cases hst : step net s l' with
+  | none => simp [hst] at hl
+  | some s'' =>
+    simp [hst] at hl
+    obtain ⟨h1, h2⟩ := hl; subst h1; subst h2; exact hst
+
+theorem next_complete (net : Net σ ε) (s s' : St σ ε) (l : Label) (h : Step net s l s') : (l, s') ∈ next net s := by
+  unfold Step at h
+  simp only [next, List.mem_filterMap]
+  refine ⟨l, ?_, by simp [h]⟩
+  simp only [candidates, List.mem_append, List.mem_flatMap, List.mem_range]
+  cases l with
+  | feed => simp
+  | start => simp
+  | collect => simp
+  | recv c =>
+    left; right
+    simp only [step] at h
+    split at h
+    · rename_i hc; exact ⟨c, hc.1, by simp⟩
+    · simp at h
+  | fwd c =>
+    left; right
+    simp only [step] at h
+    split at h
+    · rename_i hc; exact ⟨c, hc, by simp⟩
+    · simp at h
+  | inject c =>
+    right
+    simp only [step] at h
+    split at h
+    · simp at h
+    · rename_i p hp
+      split at h
+      · rename_i hc; simp [hp, hc]
+      · simp at h
+
+/-- a snapshot taken while nothing has moved since `s1` -/
+def GoodSnap (net : Net σ ε) (s1 : St σ ε) (sn : Snap σ ε) : Prop :=
+  sn.ctx < net.n ∧ sn.eng = s1.eng sn.ctx ∧
+  (∀ p q, enq sn.hist p q = enq s1.log p q) ∧ (∀ p q, cons sn.hist p q = cons s1.log p q)
+
+structure PhaseInv (net : Net σ ε) (s1 s : St σ ε) : Prop where
+  todo : s.todo = s1.todo
+  out : s.out = s1.out
+  eng : ∀ c, s.eng c = s1.eng c
+  pend : ∀ c, c < net.n → s.pend c = []
+  bars : ∀ c, c < net.n → ∀ m ∈ s.inbox c, ∃ k, m = Msg.bar k
+  enq : ∀ p q, enq s.log p q = enq s1.log p q
+  cons : ∀ p q, cons s.log p q = cons s1.log p q
+  acks : ∀ a ∈ s.acks, GoodSnap net s1 a.2
+  got : ∀ p, s.pending = some p → ∀ sn ∈ p.got, GoodSnap net s1 sn
+  done : ∃ new, s.done = s1.done ++ new ∧ ∀ ck ∈ new, ∀ sn ∈ ck.2, GoodSnap net s1 sn
+
+theorem phaseInv_refl (net : Net σ ε) (s1 : St σ ε) (hq : Quiescent net s1) (hp : s1.pending = none)
+    (ha : s1.acks = []) : PhaseInv net s1 s1 where
+  todo := rfl
+  out := rfl
+  eng := fun _ => rfl
+  pend := fun c hc => (hq c hc).2
+  bars := fun c hc m hm => by rw [(hq c hc).1] at hm; simp at hm
+  enq := fun _ _ => rfl
+  cons := fun _ _ => rfl
+  acks := fun a h => by rw [ha] at h; simp at h
+  got := fun p h => by rw [hp] at h; simp at h
+  done := ⟨[], by simp, by simp⟩
+
+theorem phaseInv_step (net : Net σ ε) (s1 s s' : St σ ε) (l : Label) (hl : l ≠ .feed ∨ s1.todo = [])
+    (h : PhaseInv net s1 s) (hs : step net s l = some s') : PhaseInv net s1 s' := by
+  obtain ⟨htodo, hout, heng, hpend, hbars, henq, hcons, hacks, hgot, hdone⟩ := h
+  cases l with
+  | feed =>
+    rcases hl with hl | hl
+    · exact absurd rfl hl
+    · simp only [step] at hs
+      rw [htodo, hl] at hs; simp at hs
+  | recv c =>
+    simp only [step] at hs
+    split at hs
+    · rename_i hc
+      split at hs
+      · simp at hs
+      · rename_i src e rest hin
+        have := hbars c hc.1 (Msg.ev src e) (by rw [hin]; simp)
+        obtain ⟨k, hk⟩ := this; cases hk
+      · rename_i k rest hin
+        injection hs with hs; subst hs
+        refine ⟨htodo, hout, heng, hpend, ?_, ?_, ?_, ?_, hgot, hdone⟩
+        · intro c' hc' m hm
+          by_cases hcc : c' = c
+          · subst hcc; simp only [upd_same] at hm
+            exact hbars c' hc' m (by rw [hin]; exact List.mem_cons_of_mem _ hm)
+          · simp only [upd_other _ _ _ _ hcc] at hm; exact hbars c' hc' m hm
+        · intro p q; simp [enq_snoc, enqOf, henq]
+        · intro p q; simp [cons_snoc, consOf, hcons]
+        · intro a ha
+          rcases List.mem_append.1 ha with ha | ha
+          · exact hacks a ha
+          · simp at ha; subst ha
+            exact ⟨hc.1, heng c, henq, hcons⟩
+    · simp at hs
+  | fwd c =>
+    simp only [step] at hs
+    split at hs
+    · rename_i hc
+      rw [hpend c hc] at hs; simp at hs
+    · simp at hs
+  | start =>
+    simp only [step] at hs
+    split at hs
+    · simp at hs
+    · injection hs with hs; subst hs
+      refine ⟨htodo, hout, heng, hpend, hbars, ?_, ?_, hacks, ?_, hdone⟩
+      · intro p q; simp [enq_snoc, enqOf, henq]
+      · intro p q; simp [cons_snoc, consOf, hcons]
+      · intro p hp sn hsn; simp at hp; subst hp; simp at hsn
+  | inject c =>
+    simp only [step] at hs
+    split at hs
+    · simp at hs
+    · rename_i pd hpd
+      split at hs
+      · split at hs
+        · injection hs with hs; subst hs
+          refine ⟨htodo, hout, heng, hpend, ?_, ?_, ?_, hacks, ?_, hdone⟩
+          · intro c' hc' m hm
+            by_cases hcc : c' = c
+            · subst hcc; simp only [upd_same] at hm
+              rcases List.mem_append.1 hm with hm | hm
+              · exact hbars c' hc' m hm
+              · simp at hm; exact ⟨_, hm⟩
+            · simp only [upd_other _ _ _ _ hcc] at hm; exact hbars c' hc' m hm
+          · intro p q; simp [enq_snoc, enqOf, henq]
+          · intro p q; simp [cons_snoc, consOf, hcons]
+          · intro p hp sn hsn; simp at hp; subst hp; exact hgot pd hpd sn hsn
+        · injection hs with hs; subst hs
+          refine ⟨htodo, hout, heng, hpend, hbars, ?_, ?_, hacks, ?_, hdone⟩
+          · intro p q; simp [enq_snoc, enqOf, henq]
+          · intro p q; simp [cons_snoc, consOf, hcons]
+          · intro p hp sn hsn; simp at hp; subst hp; exact hgot pd hpd sn hsn
+      · simp at hs
+  | collect =>
+    simp only [step] at hs
+    split at hs
+    · simp at hs
+    · rename_i k sn rest hak
+      have hsn : GoodSnap net s1 sn := hacks (k, sn) (by rw [hak]; simp)
+      have hrest : ∀ a ∈ rest, GoodSnap net s1 a.2 := fun a ha => hacks a (by rw [hak]; exact List.mem_cons_of_mem _ ha)
+      split at hs
+      · injection hs with hs; subst hs
+        refine ⟨htodo, hout, heng, hpend, hbars, ?_, ?_, hrest, ?_, hdone⟩
+        · intro p q; simp [enq_snoc, enqOf, henq]
+        · intro p q; simp [cons_snoc, consOf, hcons]
+        · intro p hp; rename_i hnone; simp [hnone] at hp
+      · rename_i pd hpd
+        have hgot' : ∀ x ∈ pd.got.filter (fun x => x.ctx != sn.ctx) ++ [sn], GoodSnap net s1 x := by
+          intro x hx
+          rcases List.mem_append.1 hx with hx | hx
+          · exact hgot pd hpd x (List.mem_filter.1 hx).1
+          · simp at hx; subst hx; exact hsn
+        split at hs
+        · split at hs
+          · injection hs with hs; subst hs
+            refine ⟨htodo, hout, heng, hpend, hbars, ?_, ?_, hrest, ?_, ?_⟩
+            · intro p q; simp [enq_snoc, enqOf, henq]
+            · intro p q; simp [cons_snoc, consOf, hcons]
+            · intro p hp; simp at hp
+            · obtain ⟨new, hn1, hn2⟩ := hdone
+              refine ⟨new ++ [(k, pd.got.filter (fun x => x.ctx != sn.ctx) ++ [sn])], by simp [hn1], ?_⟩
+              intro ck hck
+              rcases List.mem_append.1 hck with hck | hck
+              · exact hn2 ck hck
+              · simp at hck; subst hck; exact hgot'
+          · injection hs with hs; subst hs
+            refine ⟨htodo, hout, heng, hpend, hbars, ?_, ?_, hrest, ?_, hdone⟩
+            · intro p q; simp [enq_snoc, enqOf, henq]
+            · intro p q; simp [cons_snoc, consOf, hcons]
+            · intro p hp sn' hsn'; simp at hp; subst hp; exact hgot' sn' hsn'
+        · injection hs with hs; subst hs
+          refine ⟨htodo, hout, heng, hpend, hbars, ?_, ?_, hrest, ?_, hdone⟩
+          · intro p q; simp [enq_snoc, enqOf, henq]
+          · intro p q; simp [cons_snoc, consOf, hcons]
+          · intro p hp sn' hsn'; exact hgot p hp sn' hsn'
+
+theorem phaseInv_run (net : Net σ ε) (s1 : St σ ε) (labels : List Label)
+    (hnf : Label.feed ∉ labels ∨ s1.todo = []) :
+    ∀ s s', PhaseInv net s1 s → runL net s labels = some s' → PhaseInv net s1 s' := by
+  induction labels with
+  | nil => intro s s' h hr; simp [runL] at hr; subst hr; exact h
+  | cons l ls ih =>
+    intro s s' h hr
+    simp only [runL] at hr
+    split at hr
+    · rename_i s'' hst
+      have hl : l ≠ .feed ∨ s1.todo = [] := hnf.imp (fun hnf hh => hnf (by simp [hh])) id
+      exact ih (hnf.imp (fun hnf hh => hnf (List.mem_cons_of_mem _ hh)) id) s'' s'
+        (phaseInv_step net s1 s s'' l hl h hst) hr
+    · simp at hr
+
+theorem goodSnaps_consistent (net : Net σ ε) (s1 : St σ ε) (he : EdgeInv s1) (hq : Quiescent net s1)
+    (parts : List (Snap σ ε)) (h : ∀ sn ∈ parts, GoodSnap net s1 sn) : CutConsistent parts := by
+  intro a ha b hb
+  obtain ⟨_, _, hea, _⟩ := h a ha
+  obtain ⟨hbn, _, _, hcb⟩ := h b hb
+  rw [hea, hcb, ← he (.ctx a.ctx) b.ctx, (hq b.ctx hbn).1]
+  simp [proj]
+
+theorem phaseInv_reach (net : Net σ ε) (s1 s : St σ ε) (ht : s1.todo = []) (h1 : PhaseInv net s1 s1)
+    (h : Reach net s1 s) : PhaseInv net s1 s := by
+  induction h with
+  | refl => exact h1
+  | tail l _ hs ih => exact phaseInv_step net s1 _ _ l (Or.inr ht) ih hs
+
+theorem runL_reach (net : Net σ ε) (s0 : St σ ε) (ls : List Label) :
+    ∀ s s', Reach net s0 s → runL net s ls = some s' → Reach net s0 s' := by
+  induction ls with
+  | nil => intro s s' h hr; simp [runL] at hr; subst hr; exact h
+  | cons l ls ih =>
+    intro s s' h hr
+    simp only [runL] at hr
+    split at hr
+    · rename_i s'' hst; exact ih s'' s' (Reach.tail l h hst) hr
+    · simp at hr
+
+def chk (o : Option (St σ ε)) (p : St σ ε → Bool) : Bool :=
+  match o with
+  | some s => p s
+  | none => false
+
+theorem witness (net : Net σ ε) (s0 : St σ ε) (ls : List Label) (p : St σ ε → Bool)
+    (h : chk (runL net s0 ls) p = true) : ∃ s, Reach net s0 s ∧ p s = true := by
+  unfold chk at h
+  split at h
+  · rename_i s hs; exact ⟨s, runL_reach net s0 ls s0 s Reach.refl hs, h⟩
+  · simp at h
+
+instance [DecidableEq ε] (parts : List (Snap σ ε)) : Decidable (CutConsistent parts) := by
+  unfold CutConsistent; infer_instance
+
+/-! ## concrete networks for the witnesses (events are numbers; the tens digit is the type) -/
+
+/-- two contexts in a row: inputs `1..9` go to context 0, whose stream emits `e+10`; that is
+consumed by a stream of context 1, which emits `e+10` again (not routed further) -/
+def chain2 (cap : Nat) (blocking : Bool) : Net Unit Nat :=
+  { n := 2, cap := cap, blocking := blocking, dflt := 0,
+    route := fun e => if e < 10 then some 0 else if e < 20 then some 1 else none,
+    proc := fun _ _ e => ((), [e + 10]) }
+
+/-- two contexts in a cycle: inputs and the stream of context 1 are consumed in context 0
+(which reacts only to inputs), the stream of context 0 in context 1 -/
+def cycle2 (cap : Nat) (blocking : Bool) : Net Unit Nat :=
+  { n := 2, cap := cap, blocking := blocking, dflt := 0,
+    route := fun e => if e < 10 then some 0 else if e < 20 then some 1 else if e < 30 then some 0 else none,
+    proc := fun c _ e => ((), if c = 0 then (if e < 10 then [e + 10] else []) else [e + 10]) }
+
 end Varpulis.Ctx
